@@ -32,6 +32,7 @@ const (
 	c10Finalize
 	c10DestroyOld
 	c10Step
+	c10DestroyNew
 )
 
 const (
@@ -53,7 +54,7 @@ func init() {
 		Explanation: "ESP path simulation of rotate.Key and rotate.Bootstrap with summaries through their step helpers. " +
 			"R1 old key destroyed only in states with Finalize:ok; R2 Finalize only with Create:ok∧Sign:ok, SetPrimary only with Sign:ok; " +
 			"R3 no SetPrimary/Finalize/DestroyOld after any failed step; R4 nil return of Key ⇒ Create:ok∧Sign:ok∧Finalize:ok; " +
-			"R5 Bootstrap: Finalize only after both signing steps succeeded, nil return ⇒ Finalize:ok. " +
+			"R5 Bootstrap: Finalize only after both signing steps succeeded, nil return ⇒ Finalize:ok. R6 the newly created key (operand derived from CreateNewSigningKeyVersion) is never destroyed once Finalize succeeded. " +
 			"Every fault position of the property's quantifier is the :fail edge of one of the tracked calls; crash points between calls are covered by R1's ordering. " +
 			"Not covered: that the surviving state works (reload + sign), the later fault-free rotation, KMS/HSM behaviour.",
 		Assumptions: []string{"go/types, go/ssa, VTA call graph", "multierr.Combine/Append return nil iff all arguments are nil", "fmt.Errorf/errors.New return non-nil", "interface methods of ManagerInterface/CertificateAuthority are opaque events"},
@@ -74,6 +75,10 @@ func runC10(c *Ctx) {
 	isPSKV := func(v ssa.Value) bool {
 		call, ok := v.(*ssa.Call)
 		return ok && invokeIs(call, stypPkg, "CertificateAuthority", "PrimarySigningKeyVersion")
+	}
+	isCreate := func(v ssa.Value) bool {
+		call, ok := v.(*ssa.Call)
+		return ok && invokeIs(call, keysPkg, "ManagerInterface", "CreateNewSigningKeyVersion")
 	}
 	// functions of package rotate from which SignPrim is reachable
 	signReach := c.relevantSet(func(in ssa.Instruction) bool {
@@ -101,6 +106,9 @@ func runC10(c *Ctx) {
 			if len(args) >= 2 && sl.Derives(args[1], isPSKV) {
 				return c10DestroyOld, true
 			}
+			if len(args) >= 2 && sl.Derives(args[1], isCreate) {
+				return c10DestroyNew, true
+			}
 			return 0, false
 		}
 		return 0, false
@@ -118,7 +126,7 @@ func runC10(c *Ctx) {
 			var evs []esp.Ev
 			if id, ok := prim(in); ok {
 				ei := errIndex(call.Common().Signature())
-				name := [...]string{"Create", "Info", "SignPrim", "SignStep", "SetPrimary", "Finalize", "DestroyOld"}[id]
+				name := [...]string{"Create", "Info", "SignPrim", "SignStep", "SetPrimary", "Finalize", "DestroyOld", "Step", "DestroyNew"}[id]
 				evs = append(evs, esp.Ev{ID: id, Name: name, ErrIdx: ei, BoolIdx: -1})
 				counts[id]++
 			} else if f := call.Common().StaticCallee(); f != nil && load.FuncInRepo(f) && relevant[f] {
@@ -147,6 +155,11 @@ func runC10(c *Ctx) {
 						msg = "R3: old signing key destroyed after a failed step, state " + st
 					}
 					return s.Set(bDestroyed), msg
+				case c10DestroyNew:
+					if s.Has(bFinOk) {
+						return s, "R6: the newly created key is destroyed in state " + st + " after Finalize recorded it as primary (the recorded primary becomes a dead key)"
+					}
+					return s, ""
 				case c10Finalize:
 					if s.Has(bFailed) {
 						return s, "R3: Finalize reached after a failed step, state " + st
@@ -194,9 +207,8 @@ func runC10(c *Ctx) {
 				}
 				return s, ""
 			case esp.Fail:
-				if ev.ID == c10SignPrim {
-					// the primitive's failure is transmitted by its wrappers
-					return s.Set(bFailed), ""
+				if ev.ID == c10DestroyNew {
+					return s, "" // best-effort clean-up of the unused new key
 				}
 				return s.Set(bFailed), ""
 			}
@@ -251,7 +263,7 @@ func runC10(c *Ctx) {
 		})
 		c.S.Note("%s: %d configurations, %d exit outcomes (%d with possibly-nil error), %d violations", tc.name, e.Configs, len(outs), nilExits, n)
 		if n == 0 {
-			for _, rr := range []string{"R1", "R2", "R3", "R4"} {
+			for _, rr := range []string{"R1", "R2", "R3", "R4", "R6"} {
 				if tc.boot {
 					continue
 				}
